@@ -74,6 +74,9 @@ type DBPTInfo struct {
 	node     raftNodeRequest
 	proposeC chan<- []byte // proposed messages, only for raft replication
 	ReplayC  chan *raftconn.Commit
+	// closed by Assign once the local raft log has been replayed; newly committed
+	// entries are applied only after that
+	replayDone chan struct{}
 
 	mu       sync.RWMutex
 	database string
